@@ -38,7 +38,7 @@ CLAIMS = {
          "Known findings D2, D3d, D28 (document vs code) carved out and replayed.",
          "The layout tables are trusted transcriptions of doc/*.pdf (A-TABLES). "),
  "C04": ("Per-call contracts of the four frame extractors over an abstract ConnReader (ghost buffered octets / ghost stream): a complete frame is returned exactly and exactly its octets are consumed; "
-         "an incomplete buffer gives ErrPacketNotComplete and consumes nothing; a prefix below 4 is refused; the blocking extractor returns a whole frame or an error, never a partial frame. "
+         "an incomplete buffer gives ErrPacketNotComplete and consumes nothing; a prefix below 4 is refused; the blocking extractor returns a whole frame or an error, never a partial frame, returns every complete frame of a stream without transport failures (nofault) and refuses a prefix below 4. "
          "Arrival patterns are discharged by the prefix-stability lemmas (a complete frame stays the same frame whatever arrives after it; the length field depends on the first four octets only), proved from T0.",
          "ConnReader / io.ReadFull behave as the interface comment says (A-CONN); the induction over the chunk sequence that combines the per-call contract with the lemmas is a paper step. "),
  "C05": ("ASCII codec proved (isASCII loop, identity image, refusal). GSM 7-bit: gsm7encoding.Encode/Decode proved rune by rune against the tables (a rune outside both tables is refused, never replaced or dropped), the tables proved mutually inverse, "
